@@ -106,10 +106,22 @@ Section C03.
     exact (sign_wrong_reachable kdf digest shash open_box sk bytes branch_ok derive_sk sign zfix sfix nfix cfg right acct ent sk_of ulaws Sfix Nfix).
   Qed.
 
-  (* SignRawTx with any other passphrase, in any reachable state: the transaction object is
-     untouched, nothing is returned, and the call does not succeed (unsigned transaction with at
-     least one input) ... *)
+  (* SignRawTx with any other passphrase, in any reachable state, for ANY transaction with at least
+     one input — unsigned, partially signed, or already completely signed (e.g. the bytes an earlier
+     successful call returned): the transaction object is untouched, nothing is returned, and the
+     call does not succeed. Only exception: flag SINGLE and no output at all (then signing is
+     attempted for no input and existing witnesses are merely re-checked by the engine) ... *)
   Theorem C03_wrong_pass : forall st p fs t,
+    reachable st -> p <> right -> t_ins t <> [] ->
+    (forall f, parse_flag fs = Some f -> is_single f = true -> t_outs t <> []) ->
+    exists r st', sign_raw st p fs t = (r, st', t, None) /\ r <> SOk.
+  Proof.
+    exact (sign_wrong_pass_any kdf digest shash open_box sk branch_ok derive_sk sign zfix sfix nfix cfg right acct ent sk_of ulaws
+                               pk sighash redeem pub_at warmup env pfix pending_height engine Sfix Nfix).
+  Qed.
+
+  (* ... in that exceptional case it still does not succeed on an unsigned transaction *)
+  Theorem C03_wrong_pass_unsigned : forall st p fs t,
     reachable st -> p <> right -> unsigned t -> t_ins t <> [] ->
     exists r st', sign_raw st p fs t = (r, st', t, None) /\ r <> SOk.
   Proof.
@@ -170,6 +182,7 @@ Print Assumptions C03_flags.
 Print Assumptions C03_strip_witness_invariant.
 Print Assumptions C03_wrong_pass_all_states.
 Print Assumptions C03_wrong_pass.
+Print Assumptions C03_wrong_pass_unsigned.
 Print Assumptions C03_wrong_pass_error.
 Print Assumptions C03_no_material_on_error.
 Print Assumptions C03_pending_unfixed_refuted.
